@@ -5,14 +5,15 @@ from vlib import common as C
 from props import C12 as P12          # operator-table translator, known-findings loader wrapper
 
 PROP = "C15"
-CHECKER = ("tools/C12_optable.py /repo -> coq/gen/C12_OpTable.v; make -C /verif/coq -k C15/Properties_C15.vo "
-           "C15/Extract.vo gen/C12_OpTable.vo  (coqc 8.16.1, full .vo)")
+CHECKER = ("tools/C12_optable.py, tools/C15_flags.py /repo -> coq/gen/{C12_OpTable,C15_Flags}.v; make -C /verif/coq -k "
+           "C15/Properties_C15.vo C15/Extract.vo gen/C12_OpTable.vo gen/C15_Flags.vo  (coqc 8.16.1, full .vo)")
 TRUSTED = [
     "Coq 8.16.1 kernel incl. vm_compute; no native_compute",
     "hand transcription of expressionParser.cpp and the expression print methods into coq/C15/Model.v (on top of the C12 "
     "tokenizer model), tied by the differential run of this check (tree, printed text, re-parsed tree, token lists)",
     "coq/C15/Spec.v: the reference precedence-climbing parser with the C++ standard's operator levels written out by hand",
-    "tools/C12_optable.py (operator.cpp -> coq/gen/C12_OpTable.v)",
+    "tools/C12_optable.py (operator.cpp -> coq/gen/C12_OpTable.v); tools/C15_flags.py (which of the two known forms of "
+    "operatorIsLeftUnary's operand test the source has -> coq/gen/C15_Flags.v)",
     "extraction (ExtrOcamlBasic only) + extract/C15/driver.ml + extract/zutil.ml; drivers/C15.cpp",
     "statements/declarations/ternary: tested, not proved (print -> re-parse -> statement dump and second print compared; "
     "original and printed program compiled with g++ and run on the same inputs)",
@@ -353,7 +354,20 @@ def sig_sizeof_bare(case):
     return bool(re.search(r"sizeof\s+[A-Za-z_0-9]", _src(case)))
 
 
-SIGNATURES = {"literal_prefix_lost": sig_literal_prefix, "sizeof_without_parentheses": sig_sizeof_bare}
+def sig_unbalanced_closer(case):
+    depth = 0
+    for ch in _src(case):
+        if ch in "([{":
+            depth += 1
+        elif ch in ")]}":
+            depth -= 1
+            if depth < 0:
+                return True
+    return False
+
+
+SIGNATURES = {"literal_prefix_lost": sig_literal_prefix, "sizeof_without_parentheses": sig_sizeof_bare,
+              "unbalanced_closer": sig_unbalanced_closer}
 
 
 def nontrivial(case):
@@ -362,6 +376,12 @@ def nontrivial(case):
 
 def pregen():
     P12.pregen()
+    sys.path.insert(0, os.path.join(C.VERIF, "tools"))
+    import C15_flags
+    try:
+        C15_flags.generate(C.REPO, os.path.join(C.COQ, "gen", "C15_Flags.v"))
+    except C15_flags.Refuse as e:
+        raise C.CheckError("tools/C15_flags.py refuses %s/src/occa/internal/lang/expr/expressionParser.cpp: %s" % (C.REPO, e))
 
 
 def setup():
@@ -373,14 +393,14 @@ def run(run, tier, seed, replay_case=None):
     C.build_lib("asan")
     impl = C.build_driver("C15", flavour="asan")
     pregen()
-    pr = C.coq_properties(PROP, dirs=[PROP, "C12", "lib"], extra_targets=["C15/Extract.vo"], gen_targets=["gen/C12_OpTable.vo"])
+    pr = C.coq_properties(PROP, dirs=[PROP, "C12", "lib"], extra_targets=["C15/Extract.vo"], gen_targets=["gen/C12_OpTable.vo", "gen/C15_Flags.vo"])
     run.add_proof(pr, CHECKER)
     run.coverage["trusted_base"] = TRUSTED
     model = C.build_model(PROP)
 
     rng = random.Random(seed * 7919 + 15)
     corpus = C.load_corpus(PROP)
-    ne, nf, npg = (1500, 700, 14) if tier == "quick" else (40000, 15000, 250)
+    ne, nf, npg = (1500, 700, 14) if tier == "quick" else (6000, 3000, 50)
     cases = [c for c in corpus if not c.startswith("P ")] + fixed_cases()
     cases += [gen_E(rng, tier) for _ in range(ne)]
     cases += [gen_F(rng, tier) for _ in range(nf)]
@@ -416,7 +436,8 @@ def run(run, tier, seed, replay_case=None):
             total, ok, unparsed = check_programs(run, impl, env, progs, wd)
         finally:
             shutil.rmtree(wd, ignore_errors=True)
-        cov["programs"] = dict(generated=total, printed_reparsed_and_values_equal=ok, rejected_by_parser=unparsed)
+        cov["programs"] = total
+        cov["program_checks"] = dict(generated=total, printed_reparsed_and_values_equal=ok, rejected_by_parser=unparsed)
         cov["evaluations"] = cov.get("evaluations", 0) + total
     cov["distinct_nontrivial"] = len(set(c for c in cases if nontrivial(c))) + len(progs)
     cov["rule"] = ("E: expressions drawn from the reference C grammar (all binary operators, prefix/postfix unary, parentheses, calls, "
